@@ -14,6 +14,7 @@ import (
 	"fmt"
 	"io"
 	"net/http"
+	"runtime"
 	"runtime/debug"
 	"sort"
 	"strconv"
@@ -549,7 +550,11 @@ type Outcome struct {
 	Hang         bool         // ServeHTTP did not return within the watchdog
 	Direct       bool         // the handler was given the client's own ResponseWriter (pass-through / unknown handler)
 	cancelParent context.CancelFunc
+	AllocBytes   int64 // bytes allocated while ServeHTTP ran (only when measureAlloc is on)
 }
+
+// measureAlloc makes runScenario record runtime.MemStats.TotalAlloc around ServeHTTP (C10).
+var measureAlloc bool
 
 // watchdog is three orders of magnitude above the normal latency of a case (DESIGN 2.1).
 const watchdog = 30 * time.Second
@@ -703,6 +708,14 @@ func runScenarioOpts(sc *Scenario, shared *sharedTranscoder, noFlusher bool) *Ou
 				}
 			}
 		}()
+		if measureAlloc {
+			var m0, m1 runtime.MemStats
+			runtime.ReadMemStats(&m0)
+			defer func() {
+				runtime.ReadMemStats(&m1)
+				out.AllocBytes = int64(m1.TotalAlloc - m0.TotalAlloc)
+			}()
+		}
 		handler.ServeHTTP(br.root, req)
 	}()
 	select {
